@@ -81,7 +81,32 @@ type Case struct {
 	real <-chan struct{}
 	rv   reflect.Value
 	recv func()
+	set  func(v reflect.Value, ok bool) // free-running path: the value reflect.Select received
 	sync func()
+}
+
+// Slot holds what an assignment case ("case v, ok = <-c") received.
+type Slot[T any] struct {
+	V  T
+	Ok bool
+	c  *Chan[T]
+}
+
+func SlotOf[T any](c *Chan[T]) *Slot[T] { return &Slot[T]{c: c} }
+
+// Case is "case s.V, s.Ok = <-c".
+func (s *Slot[T]) Case() Case {
+	c := s.c
+	return Case{id: c.id(), rv: reflect.ValueOf(c.ch),
+		recv: func() { s.V, s.Ok = <-c.ch },
+		set: func(v reflect.Value, ok bool) {
+			var z T
+			s.V, s.Ok = z, ok
+			if ok {
+				s.V = v.Interface().(T)
+			}
+		},
+		sync: func() { c.ensure() }}
 }
 
 // RecvOf is "case <-c" on a modelled channel.
@@ -95,7 +120,12 @@ func Real(ch <-chan struct{}) Case {
 }
 
 // Select blocks until one case is ready and returns its index.
-func Select(cases ...Case) int {
+func Select(cases ...Case) int { return sel(false, cases) }
+
+// SelectDefault is a select with a default clause: -1 when no case is ready.
+func SelectDefault(cases ...Case) int { return sel(true, cases) }
+
+func sel(dflt bool, cases []Case) int {
 	if vsched.Active {
 		ids := make([]uint64, len(cases))
 		reals := make([]<-chan struct{}, len(cases))
@@ -106,16 +136,30 @@ func Select(cases ...Case) int {
 				c.sync()
 			}
 		}
-		i := vsched.Select(ids, reals)
+		var i int
+		if dflt {
+			i = vsched.TrySelect(ids, reals)
+		} else {
+			i = vsched.Select(ids, reals)
+		}
 		if i >= 0 && cases[i].recv != nil {
 			cases[i].recv()
 		}
 		return i
 	}
-	sc := make([]reflect.SelectCase, len(cases))
+	sc := make([]reflect.SelectCase, len(cases), len(cases)+1)
 	for i, c := range cases {
 		sc[i] = reflect.SelectCase{Dir: reflect.SelectRecv, Chan: c.rv}
 	}
-	i, _, _ := reflect.Select(sc)
+	if dflt {
+		sc = append(sc, reflect.SelectCase{Dir: reflect.SelectDefault})
+	}
+	i, v, ok := reflect.Select(sc)
+	if i == len(cases) {
+		return -1
+	}
+	if cases[i].set != nil {
+		cases[i].set(v, ok)
+	}
 	return i
 }
